@@ -4,7 +4,7 @@
 //   c20 <cutseed> <board>:<hex>,<board>:<hex>,…      bank payloads ("pieces") in bank order; `-` = no piece at all.
 //        The cut pattern (how every piece is cut further into banks, how banks of different boards interleave,
 //        how banks are grouped into Chronobox events, which decoy banks/events are added, how events are spread
-//        over 1..=3 files, bank format and data type, order of the file arguments) is derived deterministically
+//        over 1..=3 files (.mid or .mid.lz4), bank format and data type, order of the file arguments) is derived deterministically
 //        from <cutseed> and the pieces; cutseed 0 = every piece is one bank, one event, one file.
 //        The per-board concatenation of the pieces is all the model needs.
 //   c20hw <cutseed> <board>:<ev>;<ev>;…,…            hardware events E<T>.<ch>.<trailing> | M<c> | S<fill>; the
@@ -42,6 +42,7 @@ struct MFile {
     run: u32,
     t0: u32,
     t1: u32,
+    lz4: bool, // written as .mid.lz4 (alpha_g_analysis::read decompresses by extension)
     events: Vec<Event>,
 }
 
@@ -170,7 +171,7 @@ fn plan(seed: u64, pieces: &[Piece]) -> (Vec<MFile>, Vec<usize>) {
             .map(|(b, d)| Bank { name: cbf_name(*b), dtype: 1, data: d.clone() })
             .collect();
         let ev = Event { id: 4, mask: 0, serial: 0, ts: 0, fmt: 17, banks };
-        return (vec![MFile { run, t0: 100, t1: 100, events: vec![ev] }], vec![0]);
+        return (vec![MFile { run, t0: 100, t1: 100, lz4: false, events: vec![ev] }], vec![0]);
     }
     let mut r = Rng::new(mix(seed, pieces));
     // 1. every piece is cut into banks; per-board queues keep the order
@@ -272,7 +273,7 @@ fn plan(seed: u64, pieces: &[Piece]) -> (Vec<MFile>, Vec<usize>) {
         let d = r.below(3) as u32; // duration of the file
         let t0 = t;
         let t1 = t0 + d;
-        files.push(MFile { run, t0, t1, events: events[prev..bnd].to_vec() });
+        files.push(MFile { run, t0, t1, lz4: r.chance(1, 5), events: events[prev..bnd].to_vec() });
         prev = bnd;
         let gap = if d == 0 { 1 } else { r.below(2) as u32 };
         t = t1 + gap;
@@ -342,8 +343,16 @@ fn run_binary(seed: u64, pieces: &[Piece]) -> RunOut {
     let (files, order) = plan(seed, pieces);
     let mut paths = Vec::new();
     for (i, f) in files.iter().enumerate() {
-        let p = dir.join(format!("run{:05}sub{:03}.mid", f.run, i));
-        std::fs::write(&p, file_bytes(f)).unwrap();
+        let p = dir.join(format!("run{:05}sub{:03}.mid{}", f.run, i, if f.lz4 { ".lz4" } else { "" }));
+        if f.lz4 {
+            use std::io::Write;
+            let mut enc = lz4::EncoderBuilder::new().level(1).build(std::fs::File::create(&p).unwrap()).unwrap();
+            enc.write_all(&file_bytes(f)).unwrap();
+            let (_w, res) = enc.finish();
+            res.unwrap();
+        } else {
+            std::fs::write(&p, file_bytes(f)).unwrap();
+        }
         paths.push(p);
     }
     let out = dir.join("out");
@@ -367,7 +376,7 @@ fn run_binary(seed: u64, pieces: &[Piece]) -> RunOut {
         .filter_map(|e| e.ok())
         .any(|e| {
             let n = e.file_name().to_string_lossy().into_owned();
-            !n.ends_with(".mid") && n != "out.csv"
+            !n.ends_with(".mid") && !n.ends_with(".mid.lz4") && n != "out.csv"
         });
     let (csv, head_ok) = match raw {
         None => (if stray { Some(b"<stray file>".to_vec()) } else { None }, true),
